@@ -171,6 +171,21 @@ def run(ctx):
     d["types"]["Person"].append({"name": "friends", "type": "Person[]"})
     d["types"]["Mail"].append({"name": "re", "type": "Mail[]"})
     add("typeddata/recursive-types", "typeddata", json.dumps(d))
+    # struct types that repeat a member name (primary, nested, in arrays) with values that have the key once, not at all, twice
+    for where in ("primary", "nested", "array"):
+        for msg_inner in ({"a": 1}, {}, {"a": 1, "b": 2}, {"a": 1, "a2": 1}):
+            d = json.loads(json.dumps(TYPED))
+            dup = [{"name": "a", "type": "uint256"}, {"name": "a", "type": "uint256"}]
+            if where == "primary":
+                d["types"] = dict(T=dup, EIP712Domain=d["types"]["EIP712Domain"])
+                d["primaryType"], d["message"] = "T", msg_inner
+            elif where == "nested":
+                d["types"] = dict(T=[{"name": "s", "type": "S"}], S=dup, EIP712Domain=d["types"]["EIP712Domain"])
+                d["primaryType"], d["message"] = "T", {"s": msg_inner}
+            else:
+                d["types"] = dict(T=[{"name": "s", "type": "S[]"}], S=dup + [{"name": "b", "type": "bool"}], EIP712Domain=d["types"]["EIP712Domain"])
+                d["primaryType"], d["message"] = "T", {"s": [msg_inner, msg_inner]}
+            add("typeddata/repeated-member-name", "typeddata", json.dumps(d))
     # reference cycles that do not pass through the primary type, with finite data
     cycle_docs = []
     for types, primary, msg in (
